@@ -953,6 +953,14 @@ class ForeignKeyValidator(SOValidator):
             otherTable = findClass(self.soCol.foreignKey,
                                    self.soCol.soClass.sqlmeta.registry)
             self.fkIDType = otherTable.sqlmeta.idType
+        if self.fkIDType in (int, long) and isinstance(value, float) \
+                and value != value // 1:
+            # int() would silently drop the fraction (and a query for
+            # fkID == 2.5 would select the rows referring to id 2)
+            raise validators.Invalid(
+                "expected a %r for the ForeignKey '%s', "
+                "got %s %r instead" % (self.fkIDType, self.name,
+                                       type(value), value), value, state)
         try:
             value = self.fkIDType(value)
             return value
